@@ -143,6 +143,11 @@ type API struct {
 	// FaultsApplied counts injected faults that actually matched a call.
 	FaultsApplied int
 
+	// GlobalCalls counts clientset calls over the whole execution; GlobalFaults
+	// injects faults by that ordinal (deviation-bounded end-to-end exploration).
+	GlobalCalls  int
+	GlobalFaults map[int]FaultKind
+
 	Admit    Admission
 	OnWrite  func(w Write)
 	OnCall   func(c Call)
@@ -574,9 +579,19 @@ func (a *API) beginCall(verb, resource, name, sub string, force bool) (int, Faul
 	c := Call{Verb: verb, Resource: resource, Name: name, Subresource: sub, ID: id, Outcome: "ok", Force: force}
 	a.calls = append(a.calls, c)
 	idx := len(a.calls) - 1
+	ord := a.GlobalCalls
+	a.GlobalCalls++
 	if a.crashed {
 		a.calls[idx].Outcome = "fault:crashed"
 		return idx, FaultCrash
+	}
+	if k, ok := a.GlobalFaults[ord]; ok {
+		a.FaultsApplied++
+		a.calls[idx].Outcome = "fault:" + string(k)
+		if k == FaultCrash {
+			a.crashed = true
+		}
+		return idx, k
 	}
 	if k, ok := a.Faults[id]; ok {
 		a.FaultsApplied++
